@@ -939,7 +939,7 @@ func closeSubs(subs []*subscriptionState) {
 func (s *subscriptionState) done() {
 	s.writeMu.Lock()
 	defer s.writeMu.Unlock()
-	verifYield("sub.completed.beforeClose", s.id)
+	verifYield("sub.completed.beforeClose", s)
 	close(s.completed)
 }
 
